@@ -148,7 +148,7 @@ def main():
     recs = []
     nint = 0
     for k, (name, prob, x0, y0) in enumerate(integration_cases(120 if chk.thorough else 22, chk.seed)):
-        params = Params(iteration_limit=[200, 3, 1, 200][k % 4], rho=1e-2)
+        params = Params(iteration_limit=[200, 3, 1, 200][k % 4], rho=1e-2, collect_path=bool(k % 3 == 1))
         sol = TracedIntegrationSolver(prob, params)
         try:
             res = sol.solve(x0, y0)
